@@ -4,5 +4,5 @@ Extraction Language OCaml.
 Extraction "../ocaml/gen/c16_model.ml" N.of_nat N.to_nat Z.of_N Z.to_N
   cmd_length cmd_indexof cmd_last_indexof cmd_substring cmd_contains cmd_starts_with cmd_ends_with
   cmd_equals cmd_is_empty cmd_concat cmd_replace cmd_split cmd_trim cmd_trim_start cmd_trim_end
-  cmd_range cmd_uppercase cmd_lowercase cmd_less_than cmd_greater_than cmd_calc_expr
+  cmd_range cmd_uppercase cmd_lowercase cmd_less_than cmd_greater_than cmd_calc_expr calc_exact
   spec_find spec_rfind spec_slice is_ws digits_val show_N show_Z join blen.
